@@ -164,6 +164,25 @@ mod imp2 {
     pub enum RefT {
         Gauss { mean: [f64; 2], inv: [[f64; 2]; 2], norm: f64 },
         Rosen { a: f64, b: f64 },
+        /// bounded support: ln(x0) - (x0^2 + x1^2)/2 on x0 > 0 (NaN for x0 < 0, -inf at 0)
+        Half,
+    }
+
+    /// the same target for the real samplers, written with burn ops
+    #[derive(Clone)]
+    pub struct HalfGauss;
+    impl mini_mcmc::distributions::GradientTarget<f64, B64> for HalfGauss {
+        fn unnorm_logp(&self, position: Tensor<B64, 1>) -> Tensor<B64, 1> {
+            let x0 = position.clone().slice([0..1]);
+            x0.log() - position.powf_scalar(2.0).sum().mul_scalar(0.5)
+        }
+    }
+    impl mini_mcmc::distributions::BatchedGradientTarget<f64, B64> for HalfGauss {
+        fn unnorm_logp_batch(&self, positions: Tensor<B64, 2>) -> Tensor<B64, 1> {
+            let n = positions.dims()[0];
+            let x0 = positions.clone().slice([0..n, 0..1]).flatten::<1>(0, 1);
+            x0.log() - positions.powf_scalar(2.0).sum_dim(1).squeeze::<1>(1).mul_scalar(0.5)
+        }
     }
     impl RefT {
         fn lp(&self, x: &[f64]) -> f64 {
@@ -174,6 +193,7 @@ mod imp2 {
                     norm - 0.5 * (z[0] * d[0] + z[1] * d[1])
                 }
                 RefT::Rosen { a, b } => -((a - x[0]).powi(2) + b * (x[1] - x[0] * x[0]).powi(2)),
+                RefT::Half => x[0].ln() - 0.5 * (x[0] * x[0] + x[1] * x[1]),
             }
         }
         fn grad(&self, x: &[f64]) -> Vec<f64> {
@@ -190,11 +210,19 @@ mod imp2 {
                     let t = x[1] - x[0] * x[0];
                     vec![2.0 * (a - x[0]) + 4.0 * b * x[0] * t, -2.0 * b * t]
                 }
+                RefT::Half => {
+                    // d/dx0 ln(x0) is NaN where ln is NaN (burn's autodiff gives 1/x0 * NaN-free... keep IEEE: 1/x0 for x0>0)
+                    let g0 = if x[0] > 0.0 { 1.0 / x[0] - x[0] } else { f64::NAN };
+                    vec![g0, -x[1]]
+                }
             }
         }
     }
 
     fn targets(case: &Value) -> (RefT, Option<DiffableGaussian2D<f64>>, Option<Rosenbrock2D<f64>>) {
+        if case["target"]["kind"].as_str() == Some("half") {
+            return (RefT::Half, None, None);
+        }
         if case["target"]["kind"].as_str() == Some("rosenbrock") {
             let a = case["target"]["a"].as_f64().unwrap_or(1.0);
             let b = case["target"]["b"].as_f64().unwrap_or(3.0);
@@ -343,8 +371,12 @@ mod imp2 {
                     let mut s = HMC::<f64, B64, DiffableGaussian2D<f64>>::new(g, pos.clone(), eps, l).set_seed(seed);
                     for _ in 0..steps { s.step(); }
                     real = s.positions.to_data().to_vec::<f64>().unwrap();
+                } else if let Some(ro) = ro {
+                    let mut s = HMC::<f64, B64, Rosenbrock2D<f64>>::new(ro, pos.clone(), eps, l).set_seed(seed);
+                    for _ in 0..steps { s.step(); }
+                    real = s.positions.to_data().to_vec::<f64>().unwrap();
                 } else {
-                    let mut s = HMC::<f64, B64, Rosenbrock2D<f64>>::new(ro.unwrap(), pos.clone(), eps, l).set_seed(seed);
+                    let mut s = HMC::<f64, B64, HalfGauss>::new(HalfGauss, pos.clone(), eps, l).set_seed(seed);
                     for _ in 0..steps { s.step(); }
                     real = s.positions.to_data().to_vec::<f64>().unwrap();
                 }
@@ -367,8 +399,10 @@ mod imp2 {
                 let tr = ref_build(&rt, &th, &r, &g0, logu, v, j, eps, joint0, &mut rng_ref);
                 let out = if let Some(g) = g {
                     verif_hooks::build_tree::<B64, f64, _>(t1(&th), t1(&r), t1(&g0), logu, v, j, eps, &g, joint0, &mut rng_real)
+                } else if let Some(ro) = ro.as_ref() {
+                    verif_hooks::build_tree::<B64, f64, _>(t1(&th), t1(&r), t1(&g0), logu, v, j, eps, ro, joint0, &mut rng_real)
                 } else {
-                    verif_hooks::build_tree::<B64, f64, _>(t1(&th), t1(&r), t1(&g0), logu, v, j, eps, ro.as_ref().unwrap(), joint0, &mut rng_real)
+                    verif_hooks::build_tree::<B64, f64, _>(t1(&th), t1(&r), t1(&g0), logu, v, j, eps, &HalfGauss, joint0, &mut rng_real)
                 };
                 json!({
                     "real": {"thm": nums(&v1(&out.0)), "rm": nums(&v1(&out.1)), "thp": nums(&v1(&out.3)), "rp": nums(&v1(&out.4)),
@@ -411,7 +445,7 @@ mod imp2 {
                         }
                     }};
                 }
-                if let Some(g) = g { go!(g) } else { go!(ro.unwrap()) }
+                if let Some(g) = g { go!(g) } else if let Some(ro) = ro { go!(ro) } else { go!(HalfGauss) }
                 json!({"steps": outs})
             }
             _ => json!({"error": format!("unknown case {}", case["case"])}),
